@@ -21,6 +21,7 @@ EXPLANATION = (
     "from_detailed_parameters, tokens and the lower-cased URL are computed there from the `url` argument "
     "alone, so preparsed == new downstream; the leading/trailing C0-control-or-space trimming of the URL "
     "parser is intact."
+    " Later additions: the registrable domain comes from addr's parse of the same host (registry rules first, plain DNS-name rules only after an illegal-character / label-shape rejection, never for numeric hosts; addr 0.15.6 pinned); third-party compares the two domains without trailing dots; both authority scanners end at `/`, `?`, `#` and, for special schemes, at a backslash."
 )
 NOT_DECIDED = ("That addr's public-suffix answer is right and that the reported hostname equals WHATWG host "
                "parsing (value level, dependency).")
